@@ -202,6 +202,35 @@ def corpus(d):
                                     'consumer_type': 'RESHAPED'})
     out['POST /reshaper also changing a consumer\'s project, user and type'] \
         = Req('POST', '/reshaper', v, body, roles='service')
+    # requests REFUSED for an ordinary reason after they have auto-created
+    # a consumer
+    out['REFUSED PUT /allocations new consumer, unknown provider'] = Req(
+        'PUT', '/allocations/%s' % K3, v, {
+            'allocations': {world.N: {'resources': {'VCPU': 1}}},
+            'project_id': 'proj-new', 'user_id': 'user-new',
+            'consumer_generation': None, 'consumer_type': 'INSTANCE'})
+    out['REFUSED PUT /allocations new consumer, over capacity'] = Req(
+        'PUT', '/allocations/%s' % K3, v, {
+            'allocations': {E: {'resources': {'VCPU': 400}}},
+            'project_id': 'proj-new', 'user_id': 'user-new',
+            'consumer_generation': None, 'consumer_type': 'INSTANCE'})
+    out['REFUSED POST /allocations new + existing consumer, no inventory'] \
+        = Req('POST', '/allocations', v, {
+            K3: {'allocations': {E: {'resources': {'VCPU': 1}}},
+                 'project_id': 'proj-new', 'user_id': 'user-new',
+                 'consumer_generation': None, 'consumer_type': 'INSTANCE'},
+            K1: {'allocations': {E: {'resources': {'DISK_GB': 1}}},
+                 'project_id': world.PROJECT, 'user_id': world.USER,
+                 'consumer_generation': cg[K1],
+                 'consumer_type': 'INSTANCE'}})
+    body = _copy.deepcopy(base['body'])
+    body['allocations'][K3] = {
+        'allocations': {C: {'resources': {'VCPU': 1}}},
+        'project_id': 'proj-new', 'user_id': 'user-new',
+        'consumer_generation': None, 'consumer_type': 'INSTANCE'}
+    del body['allocations'][K2]
+    out['REFUSED POST /reshaper new consumer, class still in use'] = Req(
+        'POST', '/reshaper', v, body, roles='service')
     out['PUT aggregates new + known'] = Req(
         'PUT', '/resource_providers/%s/aggregates' % R, v, {
             'resource_provider_generation': g[R],
